@@ -463,6 +463,32 @@ def attr_scenario(which):
         calls = {"T1": ("pd.validate(dtype=float)", lambda: schema.validate(pd.DataFrame({"a": [1, 2]}))),
                  "T2": ("pd.validate(dtype=float)", lambda: schema.validate(pd.DataFrame({"a": [3, 4]})))}
         comps = list(schema.columns.values())
+    elif which == "pandas-schema-coerce":  # coercion requested at the dataframe level, the column itself does not coerce
+        Col = _mk_watched(pa.Column)
+        schema = pa.DataFrameSchema({"a": Col(float, Check.ge(0))}, coerce=True)
+        col = schema.columns["a"]
+        calls = {"T1": ("pd.validate(int data, schema coerce)", lambda: schema.validate(pd.DataFrame({"a": [1, 2]}))),
+                 "T2": ("pd.Column.validate(int data, no coerce)", lambda: col.validate(pd.DataFrame({"a": [3, 4]})))}
+        comps = list(schema.columns.values())
+    elif which == "pandas-schema-coerce-2":
+        Col = _mk_watched(pa.Column)
+        schema = pa.DataFrameSchema({"a": Col(float, Check.ge(0)), "b": Col(float)}, coerce=True)
+        calls = {"T1": ("pd.validate(int data, schema coerce)", lambda: schema.validate(pd.DataFrame({"a": [1, 2], "b": [1, 2]}))),
+                 "T2": ("pd.validate(int data, schema coerce)", lambda: schema.validate(pd.DataFrame({"a": [3, 4], "b": [3, 4]})))}
+        comps = list(schema.columns.values())
+    elif which == "pandas-schema-coerce-regex":
+        Col = _mk_watched(pa.Column)
+        schema = pa.DataFrameSchema({"^a[0-9]$": Col(float, Check.ge(0), regex=True)}, coerce=True)
+        calls = {"T1": ("pd.validate(a1 int, schema coerce)", lambda: schema.validate(pd.DataFrame({"a1": [1, 2]}))),
+                 "T2": ("pd.validate(a2 int, schema coerce)", lambda: schema.validate(pd.DataFrame({"a2": [3, 4]})))}
+        comps = list(schema.columns.values())
+    elif which == "pandas-index-coerce":
+        Idx = _mk_watched(pa.Index)
+        schema = pa.DataFrameSchema({"a": pa.Column(int)}, index=Idx(float, Check.ge(0)), coerce=True)
+        idx = schema.index
+        calls = {"T1": ("pd.validate(int index, schema coerce)", lambda: schema.validate(pd.DataFrame({"a": [1, 2]}))),
+                 "T2": ("pd.Index.validate(int index, no coerce)", lambda: idx.validate(pd.DataFrame({"a": [3, 4]})))}
+        comps = [schema.index]
     elif which == "polars-coerce":
         Col = _mk_watched(pap.Column)
         schema = pap.DataFrameSchema({"a": Col(float, Check.ge(0), coerce=True)})
@@ -674,6 +700,7 @@ def templates(tier, seed):
         if tier == "quick" and name.startswith("3 threads"):
             continue
         ts.append(Template(f"CFG/{name}", cfg_case, (name,)))
-    for which in ("pandas-coerce", "pandas-regex-name", "pandas-df-dtype", "polars-coerce"):
+    for which in ("pandas-coerce", "pandas-regex-name", "pandas-df-dtype", "pandas-schema-coerce", "pandas-schema-coerce-2", "pandas-schema-coerce-regex",
+                  "pandas-index-coerce", "polars-coerce"):
         ts.append(Template(f"ATTR/{which}", cfg_case, (which,)))
     return ts
